@@ -468,10 +468,19 @@ def secMatchOut (m : Nat × Nat × Item) : Except Err MatchOut := do
   let fs ← features (taskMetrics .soundEventClassification .soundEvent) (itemMetricSL m.2.2)
   return { src := some m.1, tgt := some m.2.1, affinity := 1, score := some (tcp m.2.2), metrics := fs }
 
+/-- `ClipEvaluation`'s validator accepts the matches of a clip only when every predicted and every
+    annotated sound event of the clip is in exactly one of them: every prediction found its
+    annotation (`nP` matches) and every annotation position is the target of exactly one match -/
+def secCovered (nP nA : Nat) (ms : List (Nat × Nat × Item)) : Bool :=
+  ms.length == nP && (List.range nA).all (fun j => (ms.map (·.2.1)).count j == 1)
+
 /-- one clip of `sound_event_classification`: a clip without evaluated sound event has no
-    score (`None`), it is then left out of the overall mean -/
+    score (`None`), it is then left out of the overall mean.  When the predictions and the
+    annotations of the clip do not refer to the same sound events one-to-one the construction of
+    the `ClipEvaluation` fails (`ValueError` of its validator). -/
 def secClip (C : Nat) (x : Nat × List SEAnn × List SEPred) : Except Err (ClipOut × List Item) := do
   let ms := secMatches C x.2.1 x.2.2
+  if !(secCovered x.2.2.length x.2.1.length ms) then throw .invalid
   let outs ← ms.mapM secMatchOut
   let scores := ms.map (fun m => tcp m.2.2)
   let score := if scores.isEmpty then none else some (mean scores)
